@@ -260,10 +260,12 @@ func (s *vfScriptServer) model(q *wReq) *wResp {
 		}
 		d := s.files[h.path]
 		end := int(q.Offset) + len(q.Data)
-		if end > len(d) {
+		if len(q.Data) > 0 && end > len(d) {
 			d = append(d, make([]byte, end-len(d))...)
 		}
-		copy(d[q.Offset:], q.Data)
+		if len(q.Data) > 0 {
+			copy(d[q.Offset:], q.Data)
+		}
 		s.files[h.path] = d
 		return ssStatus(q.ID, wsOK, "")
 	case wtStat, wtLstat:
